@@ -35,6 +35,7 @@ def run(ctx):
         raise core.MachineryFailure("the unreduced (pre-repair) Z = 1 addition formula was not refuted by AddRefines")
     jobs = []
     reps_full = [(ra, rb) for ra in (("jac", 1), ("jac", 2), ("jac", 3), "aff") for rb in (("jac", 1), ("jac", 2), ("jac", 3), "aff")]
+    reps_full += [(("pick", 2), ("jac", 1)), (("jac", 3), ("pick", 1)), ("aff", ("pick", 2)), (("pick", 1), ("pick", 3))]   # unpickled copies
     for p in ([5, 7] if quick else [5, 7, 11, 13]):
         curves = groupdrv.all_curves(p)
         for (pp, a, b) in curves:
@@ -60,7 +61,8 @@ def run(ctx):
         zs = [1, 2, p - 1, rnd.randrange(2, p)]
         reps = [(("jac", z1), ("jac", z2)) for z1 in zs for z2 in zs] + [("aff", ("jac", 1)), (("jac", 1), "aff"), ("aff", "aff"),
                                                                           ("aff", ("jac", 5)), (("jac", 7), "aff"),
-                                                                          ("negneg", ("jac", 1)), (("jac", 2), "negneg")]
+                                                                          ("negneg", ("jac", 1)), (("jac", 2), "negneg"),
+                                                                          (("pick", 2), ("jac", 1)), (("jac", 5), ("pick", 1)), ("aff", ("pick", 3))]
         jobs.append(((p, a % p, b), pairs, reps, ctx.seed))
         jobs.append(((p, a % p - p, b), pairs[:len(mult) * 2 + 6], reps, ctx.seed))        # a given as a negative integer
     events, keys = [], []
